@@ -44,15 +44,14 @@ pub trait HasChildren: HasContext {
     fn check_insert(&self, value: &Rc<XmlItem>) -> error::Result<()>;
 
     fn append(&self, value: Rc<XmlItem>) -> error::Result<Rc<XmlItem>> {
-        self.check_insert(&value)?;
-        let id = self.last_child_or_self_id();
-        value.set_order_after(id);
-        self.insert_by_id(value, None)
+        let value = self.insert_by_id(value, None)?;
+        self.context().invalidate_order();
+        Ok(value)
     }
 
     fn delete(&self, id: usize) -> Option<Rc<XmlItem>> {
         if let Some(v) = self.delete_by_id(id) {
-            v.clear_order();
+            self.context().invalidate_order();
             Some(v)
         } else {
             None
@@ -74,10 +73,9 @@ pub trait HasChildren: HasContext {
         if value.id() == id {
             return Ok(value);
         }
-        value
-            .set_order_before(id)
-            .ok_or(error::Error::OufOfIndex(id))?;
-        self.insert_by_id(value, Some(id))
+        let value = self.insert_by_id(value, Some(id))?;
+        self.context().invalidate_order();
+        Ok(value)
     }
 }
 
@@ -113,6 +111,7 @@ pub trait HasContext {
     }
 
     fn order(&self) -> usize {
+        self.context().refresh_order();
         let cache_version = self.context().info.borrow().order_version;
         let order_version = self.context().ordering.borrow().version;
         if cache_version < order_version {
@@ -752,9 +751,9 @@ impl XmlAttribute {
             self.values.borrow_mut().clear();
 
             for v in attr.borrow().values.borrow().as_slice() {
-                v.init_order_recursive();
                 v.set_parent_id(Some(self.id()));
             }
+            self.context().invalidate_order();
 
             self.values
                 .borrow_mut()
@@ -2455,7 +2454,7 @@ impl XmlElement {
 
     pub fn append_attribute(&mut self, attr: Rc<XmlItem>) {
         attr.set_parent_id(Some(self.id()));
-        attr.init_order_recursive();
+        self.context().invalidate_order();
         self.attributes.push(attr);
     }
 
@@ -2493,8 +2492,8 @@ impl XmlElement {
         self.attributes = kept;
         for v in removed.as_slice() {
             v.set_parent_id(None);
-            v.clear_order();
         }
+        self.context().invalidate_order();
         removed.into_iter().next()
     }
 
@@ -3079,26 +3078,6 @@ impl XmlItem {
         }
     }
 
-    fn clear_order(&self) {
-        match self {
-            XmlItem::Attribute(v) => v.borrow().clear_order(),
-            XmlItem::CData(v) => v.borrow().clear_order(),
-            XmlItem::CharReference(v) => v.borrow().clear_order(),
-            XmlItem::Comment(v) => v.borrow().clear_order(),
-            XmlItem::DeclarationAttList(v) => v.borrow().clear_order(),
-            XmlItem::Document(v) => v.borrow().clear_order(),
-            XmlItem::DocumentType(v) => v.borrow().clear_order(),
-            XmlItem::Element(v) => v.borrow().clear_order(),
-            XmlItem::Entity(v) => v.borrow().clear_order(),
-            XmlItem::Namespace(v) => v.borrow().clear_order(),
-            XmlItem::Notation(v) => v.borrow().clear_order(),
-            XmlItem::PI(v) => v.borrow().clear_order(),
-            XmlItem::Text(v) => v.borrow().clear_order(),
-            XmlItem::Unexpanded(v) => v.borrow().clear_order(),
-            XmlItem::Unparsed(v) => v.borrow().entity().borrow().clear_order(),
-        }
-    }
-
     pub fn id(&self) -> usize {
         match self {
             XmlItem::Attribute(v) => v.borrow().id(),
@@ -3215,46 +3194,6 @@ impl XmlItem {
             XmlItem::Text(v) => v.borrow_mut().set_parent_id(parent_id),
             XmlItem::Unexpanded(v) => v.borrow_mut().set_parent_id(parent_id),
             XmlItem::Unparsed(v) => v.borrow().entity().borrow_mut().set_parent_id(parent_id),
-        }
-    }
-
-    fn set_order_after(&self, id: usize) -> Option<usize> {
-        match self {
-            XmlItem::Attribute(v) => v.borrow().set_order_after(id),
-            XmlItem::CData(v) => v.borrow().set_order_after(id),
-            XmlItem::CharReference(v) => v.borrow().set_order_after(id),
-            XmlItem::Comment(v) => v.borrow().set_order_after(id),
-            XmlItem::DeclarationAttList(v) => v.borrow().set_order_after(id),
-            XmlItem::Document(v) => v.borrow().set_order_after(id),
-            XmlItem::DocumentType(v) => v.borrow().set_order_after(id),
-            XmlItem::Element(v) => v.borrow().set_order_after(id),
-            XmlItem::Entity(v) => v.borrow().set_order_after(id),
-            XmlItem::Namespace(v) => v.borrow().set_order_after(id),
-            XmlItem::Notation(v) => v.borrow().set_order_after(id),
-            XmlItem::PI(v) => v.borrow().set_order_after(id),
-            XmlItem::Text(v) => v.borrow().set_order_after(id),
-            XmlItem::Unexpanded(v) => v.borrow().set_order_after(id),
-            XmlItem::Unparsed(v) => v.borrow().entity().borrow().set_order_after(id),
-        }
-    }
-
-    fn set_order_before(&self, id: usize) -> Option<usize> {
-        match self {
-            XmlItem::Attribute(v) => v.borrow().set_order_before(id),
-            XmlItem::CData(v) => v.borrow().set_order_before(id),
-            XmlItem::CharReference(v) => v.borrow().set_order_before(id),
-            XmlItem::Comment(v) => v.borrow().set_order_before(id),
-            XmlItem::DeclarationAttList(v) => v.borrow().set_order_before(id),
-            XmlItem::Document(v) => v.borrow().set_order_before(id),
-            XmlItem::DocumentType(v) => v.borrow().set_order_before(id),
-            XmlItem::Element(v) => v.borrow().set_order_before(id),
-            XmlItem::Entity(v) => v.borrow().set_order_before(id),
-            XmlItem::Namespace(v) => v.borrow().set_order_before(id),
-            XmlItem::Notation(v) => v.borrow().set_order_before(id),
-            XmlItem::PI(v) => v.borrow().set_order_before(id),
-            XmlItem::Text(v) => v.borrow().set_order_before(id),
-            XmlItem::Unexpanded(v) => v.borrow().set_order_before(id),
-            XmlItem::Unparsed(v) => v.borrow().entity().borrow().set_order_before(id),
         }
     }
 }
@@ -4200,6 +4139,18 @@ impl Context {
         self.id_map.borrow().get(&id).and_then(|v| v.upgrade())
     }
 
+    /// The tree has changed: the order keys are recomputed from it when next needed.
+    fn invalidate_order(&self) {
+        self.ordering.borrow_mut().dirty = true;
+    }
+
+    fn refresh_order(&self) {
+        if self.ordering.borrow().dirty {
+            self.ordering.borrow_mut().clear();
+            self.document().borrow().init_order_recursive();
+        }
+    }
+
     fn zero(&self) -> Context {
         Context {
             info: singleton(ContextInfo::default()),
@@ -4325,9 +4276,16 @@ impl fmt::Debug for ContextInfo {
 struct DocumentOrder {
     order: Vec<Weak<RefCell<ContextInfo>>>,
     version: usize,
+    dirty: bool,
 }
 
 impl DocumentOrder {
+    fn clear(&mut self) {
+        self.order.clear();
+        self.version += 1;
+        self.dirty = false;
+    }
+
     fn get(&self, id: usize) -> usize {
         self.order
             .iter()
